@@ -6,6 +6,7 @@ import (
 	"errors"
 	"fmt"
 	"os"
+	"path/filepath"
 	"strconv"
 	"strings"
 	"sync/atomic"
@@ -225,6 +226,7 @@ func unpackFaults(base string, h *uHeader, g *arena.Gamma, c *uCase, full *uObs,
 }
 
 func unpackMain() int {
+	relAllow = *flagMode == "allowrel"
 	props := strings.Split(*flagProps, ",")
 	var gammas []int64
 	for _, s := range strings.Split(*flagGamma, ",") {
@@ -395,14 +397,49 @@ func unpackOnce(base string, h *uHeader, g *arena.Gamma, c *uCase, w int, n int6
 	dst := g.Abs(root, h.Dst)
 	p, _ := slug.NewPacker()
 	for _, a := range h.Allow {
-		slug.AllowSymlinkTarget(g.Abs(root, a))(p)
+		if relAllow {
+			// the same allow-list entry spelled relative to dst
+			rel, _ := filepath.Rel(dst, g.Abs(root, a))
+			slug.AllowSymlinkTarget(rel)(p)
+		} else {
+			slug.AllowSymlinkTarget(g.Abs(root, a))(p)
+		}
 	}
+	// A Packer is an options object: using it before, for another destination, must not matter.
+	// Warm it up with an archive that holds an external link (so that every validation path runs).
+	if !relAllow {
+		warmUnpack(p, root)
+	}
+	if relAllow {
+		// ... and once inside the arena, one level above dst: a rejected external link, nothing is created
+		tb0, _ := tarx.Tar([]tarx.Entry{{Name: "zz", Type: '2', Mode: 0777, Link: "../../nowhere"}}, tarx.USTAR)
+		p.Unpack(bytes.NewReader(tarx.GzipPlain(tb0)), filepath.Dir(dst))
+	}
+	// dst may be spelled with a trailing slash or a trailing "/." (same directory)
+	dst += []string{"", "/", "/."}[int(n)%3]
 	uerr := p.Unpack(rd, dst)
 	obs := &uObs{Hist: c.Hist, St: statusOf(uerr), Fs: arena.SnapshotList(g.Snapshot(root)), Gamma: g.Seed, Fault: c.Fault}
 	if uerr != nil {
 		obs.Err = strings.ReplaceAll(uerr.Error(), root, "")
 	}
 	return obs, ""
+}
+
+var relAllow = false
+
+// warmUnpack uses p once on a scratch destination outside the arena's abstract root.
+func warmUnpack(p *slug.Packer, root string) {
+	d, err := os.MkdirTemp(filepath.Dir(root), "warm-")
+	if err != nil {
+		return
+	}
+	defer os.RemoveAll(d)
+	tb, _ := tarx.Tar([]tarx.Entry{
+		{Name: "sub/", Type: '5', Mode: 0755},
+		{Name: "sub/in", Type: '2', Mode: 0777, Link: "../x"},
+		{Name: "sub/out", Type: '2', Mode: 0777, Link: "../../../outside"},
+	}, tarx.USTAR)
+	p.Unpack(bytes.NewReader(tarx.GzipPlain(tb)), filepath.Join(d, "deep", "er"))
 }
 
 func isASCII(s string) bool {
